@@ -272,6 +272,28 @@ def gen_seeded(rng, tier):
                                                                   (["--rogue-file"], rng.choice(["none", "stdout", "-"]), 0.3)),
                    n >= 2, "seeded-shuffle-rogue")
         yield Case("cli_seeded", [st, "mutate", "gaps"] + flags((["-r", "--rate"], frac(), 0.7), (["-n", "--prop-seq"], frac(), 0.7)), True, "seeded-mutate-gaps")
+        # --- seeded commands with side files (`cli_libf`: the driver places / collects the files) --------------------------
+        names = [r[0] for r in rows]
+        counted = rng.sample(names, rng.randint(1, n))
+        rng.shuffle(counted)
+        cnt = [(x, rng.randint(1, 4)) for x in counted]
+        kind = rng.random()
+        if kind < 0.08:
+            cnt[rng.randrange(len(cnt))] = (cnt[0][0], rng.choice([0, -1]))
+        elif kind < 0.16:
+            cnt.append(("nope", 2))
+        elif kind < 0.24:
+            cnt.append((cnt[0][0], rng.randint(1, 5)))       # the same name twice: the later line counts
+        elif kind < 0.27:
+            cnt = []
+        total = sum(v for _, v in cnt)
+        cfile = "counts.txt=" + "".join("%s~%d|" % kv for kv in cnt)
+        yield Case("cli_libf", [st, cfile, "sample", "rarefy"] + flags((["-n", "--nb-seq"], str(rng.choice([0, 1, max(1, total // 3), max(1, total // 2), max(1, total - 1), max(1, total - 1), max(0, total), rng.choice([1, -1])])), 0.9),
+                                                                       (["-c", "--counts"], "counts.txt", 1.0), (["-r", "--replicates"], str(rng.choice([0, 1, 2, 2, 3, 3])), 0.6)),
+                   True, "seeded-sample-rarefy")
+        yield Case("cli_libf", [st, "_", "build", "seqboot"] + flags((["-n", "--nboot"], str(rng.randint(0, 3)), 0.8), (["-f", "--frac"], rng.choice(["0.25", "0.5", "0.75", "1", "0.3", "0", "1.5"]), 0.5),
+                                                                     (["-o", "--out-prefix"], rng.choice(["boot", "b_"]), 0.95), (["-S", "--shuf-order"], None, 0.4)),
+                   True, "seeded-build-seqboot")
 
 
 def gen(rng, tier):
